@@ -173,6 +173,19 @@ theorem index_refines_spec_ret (i s : Impl.Index) (hi : Impl.Inv i) (hs : Impl.I
   · left; rw [h]
   · right; exact h.1
 
+/-- `lzma_index_buffer_decode` / `lzma_index_decoder` on arbitrary bytes (valid, truncated, corrupt, hostile sizes):
+    the concrete decoder (appending to trees/groups) answers exactly like the decoder over the list-of-records
+    specification — same lzma_ret, same number of consumed bytes, same memory figure, and on success an index whose
+    abstraction is the specification's result and that satisfies the invariant (so it can start a history). -/
+theorem index_refines_spec_decode (memlimit : Nat) (bs : List UInt8) :
+    (Impl.decode memlimit bs).ret = .memError
+    ∨ ((Impl.decode memlimit bs).ret = (Spec.decode memlimit bs).ret
+       ∧ (Impl.decode memlimit bs).used = (Spec.decode memlimit bs).used
+       ∧ (Impl.decode memlimit bs).memNeeded = (Spec.decode memlimit bs).memNeeded
+       ∧ (Impl.decode memlimit bs).index.map Impl.abs = (Spec.decode memlimit bs).index
+       ∧ ∀ i, (Impl.decode memlimit bs).index = some i → Impl.Inv i) :=
+  Impl.decode_refines memlimit bs
+
 /-- full-strength iterator/locate part of the refinement: the concrete iterator (tree positions, ITER_METHOD_*
     indirection, binary search) shows exactly what the specification iterator shows -/
 def index_refines_spec_iter_statement : Prop :=
